@@ -177,6 +177,7 @@ def handleEvent (d : DS) (toks : List String) : DS × String :=
          if k = "err" then ok { d with ps := pstep c d.ps (.fetch (.err w)) }
          else match k.toNat? with
            | none => fail d "bad ret line"
+           | some 0 => ok d     -- a reply without entries: no progress, the worker asks again (identity step)
            | some k =>
              if !enabled d.ps.f (.resp w k) then fail d s!"ret {s} {e} {k}: outside the get-entries contract"
              else ok { d with ps := pstep c d.ps (.fetch (.resp w k)) })
@@ -214,6 +215,12 @@ def handleEvent (d : DS) (toks : List String) : DS × String :=
          else if v = "quota" then ok { d with ps := pstep c d.ps (.quota j), retried := if c.retryQuota then (s, k) :: d.retried else d.retried }
          else ok { d with ps := pstep c d.ps (.fatal j) })
     | _, _, _ => fail d "addret outside a pass"
+  | "addempty" :: _ =>
+    -- an AddSequencedLeaves request without leaves (the empty batch that follows a zero-entry get-entries reply) is refused by
+    -- the destination: the submitter fails, the pass is cancelled and cannot return nil
+    (match d.phase with
+     | .fetching => ok { d with ps := { d.ps with failed := true, f := step c.env d.ps.f .cancel } }
+     | _ => fail d "AddSequencedLeaves while no pass is running")
   | "cancel" :: _ =>
     let d := { d with ctxCancelled := true }
     (match d.phase with
